@@ -1918,7 +1918,8 @@ class EntityDef:
         copy.bases = deepcopy(self.bases, memodict)
         copy.helpers = deepcopy(self.helpers, memodict)
         copy.desc = self.desc
-        copy.resources = self.resources
+        # Resource objects are immutable, but the sequence holding them may be a list.
+        copy.resources = self.resources if isinstance(self.resources, tuple) else list(self.resources)
         copy.is_alias = self.is_alias
 
         # Avoid copy for these, we know the tags-map is immutable.
